@@ -9,6 +9,7 @@ mod model;
 mod props;
 mod report;
 mod rng;
+mod rulecheck;
 
 use report::Report;
 
